@@ -109,7 +109,7 @@ def _saturate(hyps, seeds, rounds, maxdeg, max_products):
 
 
 def prove(eng, goals=(), goal_atoms=(), rounds=2, maxdeg=8, extra_hyps=(), use_pc=True, timeout_ms=60000,
-          max_products=150000, acc=None, label='vc', ineq_multipliers=False):
+          max_products=150000, acc=None, label='vc', ineq_multipliers=False, extra_atoms=()):
     """
     goals: polynomials (Sym or dict) that must equal 0;  goal_atoms: Atoms that must hold.
     Returns 'proved' | 'unproved' | 'unknown'.
@@ -136,7 +136,7 @@ def prove(eng, goals=(), goal_atoms=(), rounds=2, maxdeg=8, extra_hyps=(), use_p
         seeds |= set(g)
     for a in atoms:
         seeds |= set(a.p)
-    pc_atoms = [a for a in eng.atoms if not is_int_poly(a.p)] if use_pc else []
+    pc_atoms = ([a for a in eng.atoms if not is_int_poly(a.p)] if use_pc else []) + list(extra_atoms)
     if atoms:
         # inequalities usually need the path inequalities' monomials as well
         for a in pc_atoms:
@@ -202,3 +202,21 @@ def canary(eng, goal, rounds=2, **kw):
     shifted = Sym(padd(g.t, pconst(1)))
     kw.pop('acc', None)
     return prove(eng, [shifted], rounds=rounds, **kw) != 'proved'
+
+
+def prove_within_tolerance(eng, goals, input_vars, bound=1000, eps=Fraction(1, 10**9), acc=None, label='vc_tol'):
+    """|g| <= eps for all goals, for all input variables in [-bound, bound] (LRA; exact when the goals are linear)"""
+    from .poly import pdeg
+    gl = [g for g in split_goals(goals) if g]
+    if any(pdeg(g) > 1 for g in gl):
+        return 'unproved'
+    extra = []
+    for v in input_vars:
+        x = {((v, 1),): 1}
+        extra.append(Atom(psub(x, pconst(bound)), '<='))
+        extra.append(Atom(psub(pneg(x), pconst(bound)), '<='))
+    atoms = []
+    for g in gl:
+        atoms.append(Atom(psub(g, pconst(eps)), '<='))
+        atoms.append(Atom(psub(pneg(g), pconst(eps)), '<='))
+    return prove(eng, [], atoms, rounds=0, extra_atoms=extra, acc=acc, label=label)
